@@ -1,4 +1,4 @@
-import Pw.Lemmas.Frame
+import Pw.Lemmas.Progress
 import Pw.Model.Serve
 /-
   C04 — no client input can crash, wedge or balloon the server.
@@ -347,5 +347,423 @@ theorem C04_no_crash (cfg : Config) (h : Handlers) (inp tin : Bytes) : (serve cf
   all_goals first
     | exact serveAfterVersion_safe _ _ _ _ _ _ _
     | (simp [finish, endOf]; try (cases cfg.tail <;> simp))
+
+/-! ### Part 2: the connection is released once its input has ended
+
+  `Tail.wait` is a client that is merely silent; `Tail.rerr` / `Tail.eof _` is a transport that
+  fails reads, or a client that has closed its side, after the last available byte.  In the second
+  case serving always comes to an end: no step blocks, every loop iteration consumes a message,
+  and the fuel the model supplies to its loops (`items.length + 1`) is never what stops them. -/
+
+/-- what a handler step may do to the input: only consume; stop in `waiting` only on a waiting stream -/
+def StepOk (i : Inp) (st : Step) : Prop :=
+  (∀ s', st = .cont s' → InpLe i s'.inp) ∧ (∀ s', st = .stop s' .waiting → i.tail = .wait)
+
+theorem stop_ok (i : Inp) (s : Sess) : StepOk i (.stop s .closed) := by simp [StepOk]
+
+theorem cont_ok (i : Inp) (s : Sess) (h : InpLe i s.inp) : StepOk i (.cont s) := by
+  refine ⟨fun s' he => ?_, by simp⟩
+  cases he; exact h
+
+theorem send_eq_inp (s s1 : Sess) (m : BMsg) (ok : Bool) (h : s.send m = (s1, ok)) : s1.inp = s.inp := by
+  have := send_inp s m; rw [h] at this; exact this
+
+theorem afterWrite_ok (i : Inp) (s : Sess) (m : BMsg) (h : InpLe i s.inp) : StepOk i (afterWrite (s.send m)) := by
+  rcases hs : s.send m with ⟨s1, ok⟩
+  have := send_eq_inp s s1 m ok hs
+  cases ok with
+  | true => simp only [afterWrite]; exact cont_ok i s1 (by rw [this]; exact h)
+  | false => simp only [afterWrite]; exact stop_ok i s1
+
+theorem errorCode_ok (i : Inp) (s : Sess) (e : Option Err) (h : InpLe i s.inp) : StepOk i (errorCode s e) := by
+  unfold errorCode sendError
+  rcases hs : s.send (.error (errorBody (flatten e))) with ⟨s1, ok⟩
+  have := send_eq_inp s s1 _ ok hs
+  cases ok with
+  | false => exact stop_ok i s1
+  | true => exact afterWrite_ok i s1 _ (by rw [this]; exact h)
+
+theorem extendedError_ok (i : Inp) (s : Sess) (e : Option Err) (h : InpLe i s.inp) : StepOk i (extendedError s e) := by
+  unfold extendedError sendError
+  exact afterWrite_ok i _ _ h
+
+theorem describeCols_ok (i : Inp) (s : Sess) (f : List Nat) (cols : List ColDesc) (h : InpLe i s.inp) :
+    StepOk i (afterWrite (describeCols s f cols)) := by
+  unfold describeCols
+  split <;> exact afterWrite_ok i s _ h
+
+theorem InpLe.setMsg (s : Sess) (m : Bytes) : InpLe s.inp (s.setMsg m).inp := InpLe.msg _ _
+
+macro "inple" : tactic =>
+  `(tactic| first | assumption | exact InpLe.refl _ | exact InpLe.msg _ _ | (simp [InpLe, Sess.setMsg, Sess.log, Sess.markUnsup]; done))
+
+theorem runStatements_ok : ∀ (sts : List Stmt) (s : Sess), StepOk s.inp (runStatements sts s) := by
+  intro sts
+  induction sts with
+  | nil => intro s; exact afterWrite_ok _ s _ (InpLe.refl _)
+  | cons st rest ih =>
+    intro s
+    simp only [runStatements]
+    split
+    · rename_i s1 heq
+      have : s1.inp = s.inp := by
+        split at heq
+        · cases heq; try rfl
+        · exact send_eq_inp _ _ _ _ heq
+      exact errorCode_ok _ _ _ (by rw [this]; exact InpLe.refl _)
+    · rename_i s1 heq
+      have h1 : s1.inp = s.inp := by
+        split at heq
+        · cases heq; try rfl
+        · exact send_eq_inp _ _ _ _ heq
+      obtain ⟨a, c⟩ := runProg_progress (st.body []) { cols := st.cols, formats := [] } (s1.log (.exec st.q st.idx []))
+      have hl : (s1.log (.exec st.q st.idx [])).inp = s.inp := by simp [Sess.log, h1]
+      rw [hl] at a c
+      rcases hr : runProg (st.body []) { cols := st.cols, formats := [] } (s1.log (.exec st.q st.idx [])) with ⟨o, s2⟩
+      rw [hr] at a c
+      cases o with
+      | blocked =>
+        refine ⟨by simp, fun s' _ => ?_⟩
+        apply Classical.byContradiction
+        intro hne
+        exact c hne rfl
+      | panicked m => simp [StepOk]
+      | done e =>
+        cases e with
+        | some e => exact errorCode_ok _ _ _ a
+        | none =>
+          obtain ⟨x, y⟩ := ih s2
+          refine ⟨fun s' he => InpLe.trans a (x s' he), fun s' he => ?_⟩
+          have := y s' he
+          apply Classical.byContradiction
+          intro hne
+          exact a.2.2 hne this
+
+theorem handleSimpleQuery_ok (h : Handlers) (s : Sess) : StepOk s.inp (handleSimpleQuery h s) := by
+  unfold handleSimpleQuery
+  cases hg : getString s.inp.msg with
+  | none => exact stop_ok _ _
+  | some p =>
+    obtain ⟨q, rest⟩ := p
+    dsimp only
+    split
+    · split
+      · exact stop_ok _ _
+      · rename_i s1 heq
+        exact afterWrite_ok _ _ _ (by rw [send_eq_inp _ _ _ _ heq]; exact InpLe.msg _ _)
+    · cases hp : h.parse q with
+      | error e => exact errorCode_ok _ _ _ (by inple)
+      | ok sts =>
+        cases sts with
+        | nil => exact errorCode_ok _ _ _ (by inple)
+        | cons st sts =>
+          have := runStatements_ok (labelStmts q (st :: sts)) ((s.setMsg rest).log (.parse q))
+          exact ⟨fun s' he => InpLe.trans (by inple) (this.1 s' he), fun s' he => by simpa [Sess.log, Sess.setMsg] using this.2 s' he⟩
+
+theorem handleParse_ok (h : Handlers) (s : Sess) : StepOk s.inp (handleParse h s) := by
+  unfold handleParse
+  repeat' (first | split | dsimp only)
+  all_goals first
+    | exact stop_ok _ _
+    | exact extendedError_ok _ _ _ (by inple)
+    | exact afterWrite_ok _ _ _ (by inple)
+
+theorem handleDescribe_ok (s : Sess) : StepOk s.inp (handleDescribe s) := by
+  unfold handleDescribe
+  repeat' (first | split | dsimp only)
+  all_goals first
+    | exact stop_ok _ _
+    | exact extendedError_ok _ _ _ (by inple)
+    | (rename_i s1 heq; exact describeCols_ok _ _ _ _ (by rw [send_eq_inp _ _ _ _ heq]; inple))
+    | exact describeCols_ok _ _ _ _ (by inple)
+
+theorem handleBind_ok (s : Sess) : StepOk s.inp (handleBind s) := by
+  unfold handleBind
+  repeat' (first | split | dsimp only)
+  all_goals first
+    | exact stop_ok _ _
+    | exact extendedError_ok _ _ _ (by inple)
+    | exact afterWrite_ok _ _ _ (by inple)
+
+theorem handleClose_ok (s : Sess) : StepOk s.inp (handleClose s) := by
+  unfold handleClose
+  repeat' (first | split | dsimp only)
+  all_goals first
+    | exact stop_ok _ _
+    | exact extendedError_ok _ _ _ (by inple)
+    | exact afterWrite_ok _ _ _ (by inple)
+
+theorem handleExecute_ok (s : Sess) : StepOk s.inp (handleExecute s) := by
+  unfold handleExecute
+  split
+  · exact stop_ok _ _
+  · split
+    · exact stop_ok _ _
+    · dsimp only
+      split
+      · exact extendedError_ok _ _ _ (by inple)
+      · rename_i r1 _ r2 _ _ p _
+        obtain ⟨a, c⟩ := runProg_progress (p.stmt.body p.params) { cols := p.stmt.cols, formats := p.formats }
+          ((s.setMsg r2).log (.exec p.stmt.q p.stmt.idx p.params))
+        have hl : ((s.setMsg r2).log (.exec p.stmt.q p.stmt.idx p.params)).inp.tail = s.inp.tail := rfl
+        have hle : InpLe s.inp ((s.setMsg r2).log (.exec p.stmt.q p.stmt.idx p.params)).inp := InpLe.msg _ _
+        rcases hr : runProg (p.stmt.body p.params) { cols := p.stmt.cols, formats := p.formats }
+          ((s.setMsg r2).log (.exec p.stmt.q p.stmt.idx p.params)) with ⟨o, s2⟩
+        rw [hr] at a c
+        cases o with
+        | blocked =>
+          refine ⟨by simp, fun s' _ => ?_⟩
+          apply Classical.byContradiction
+          intro hne
+          exact c (by rw [hl]; exact hne) rfl
+        | panicked m => exact extendedError_ok _ _ _ (InpLe.trans hle a)
+        | done e =>
+          cases e with
+          | some e => exact extendedError_ok _ _ _ (InpLe.trans hle a)
+          | none => exact cont_ok _ _ (InpLe.trans hle a)
+
+theorem handleCommand_ok (h : Handlers) (t : UInt8) (s : Sess) : StepOk s.inp (handleCommand h t s) := by
+  unfold handleCommand
+  split; · exact cont_ok _ _ (InpLe.refl _)
+  split; · exact handleSimpleQuery_ok _ _
+  split; · exact handleExecute_ok _
+  split; · exact handleParse_ok _ _
+  split; · exact handleDescribe_ok _
+  split; · exact afterWrite_ok _ _ _ (InpLe.refl _)
+  split; · exact handleBind_ok _
+  split; · exact cont_ok _ _ (InpLe.refl _)
+  split; · exact cont_ok _ _ (InpLe.refl _)
+  split; · exact handleClose_ok _
+  split
+  · split <;> exact stop_ok _ _
+  · exact errorCode_ok _ _ _ (InpLe.refl _)
+
+theorem handleOversize_ok (t : UInt8) (size : Int) (s : Sess) : StepOk s.inp (handleOversize t size s) := by
+  unfold handleOversize
+  dsimp only
+  split
+  · exact errorCode_ok _ _ _ (InpLe.refl _)
+  · unfold sendError; exact afterWrite_ok _ _ _ (InpLe.refl _)
+
+/-- **progress**: an iteration of the command loop that goes on has consumed at least one
+    message; one that stops in `waiting` was reading from a stream that is merely silent -/
+theorem stepCommand_progress (h : Handlers) (s : Sess) :
+    (∀ s', stepCommand h s = .cont s' → s'.inp.items.length < s.inp.items.length ∧
+        (s.inp.tail ≠ .wait → s'.inp.tail ≠ .wait)) ∧
+    (∀ s', stepCommand h s = .stop s' .waiting → s.inp.tail = .wait) := by
+  unfold stepCommand
+  have hn := next_spec s.inp
+  rcases hnx : s.inp.next with ⟨rd, i⟩
+  rw [hnx] at hn
+  cases hn with
+  | blocked ht => simp [ht]
+  | rerr ht => simp
+  | item it i h1 h2 h3 =>
+    cases it with
+    | big t sz full =>
+      simp only []
+      by_cases hf : full = true
+      · simp only [hf, if_true]
+        obtain ⟨a, c⟩ := handleOversize_ok t sz { s with inp := i }
+        refine ⟨fun s' he => ?_, fun s' he => ?_⟩
+        · have := a s' he
+          exact ⟨by have := this.1; simp only at this; omega, fun hne => this.2.2 (by simp only; rw [h2]; exact hne)⟩
+        · have := c s' he; simp only at this; rw [← h2]; exact this
+      · simp only [hf, if_false, Bool.false_eq_true]
+        refine ⟨by simp, fun s' he => ?_⟩
+        cases hti : i.tail with
+        | wait => rw [← h2]; exact hti
+        | rerr => simp [hti] at he
+        | eof m => simp [hti] at he
+    | msg t body =>
+      simp only []
+      obtain ⟨a, c⟩ := handleCommand_ok h t { s with inp := i }
+      refine ⟨fun s' he => ?_, fun s' he => ?_⟩
+      · have := a s' he
+        exact ⟨by have := this.1; simp only at this; omega, fun hne => this.2.2 (by simp only; rw [h2]; exact hne)⟩
+      · have := c s' he; simp only at this; rw [← h2]; exact this
+
+/-- the loop's fuel is never what ends it: with an ended stream and the fuel `serve` supplies,
+    the loop does not stop in `waiting` -/
+theorem loop_ends (h : Handlers) : ∀ (fuel : Nat) (s : Sess), s.inp.tail ≠ .wait → s.inp.items.length < fuel →
+    (loop h fuel s).2 ≠ .waiting := by
+  intro fuel
+  induction fuel with
+  | zero => intro s _ hl; omega
+  | succ n ih =>
+    intro s ht hl
+    simp only [loop]
+    obtain ⟨a, c⟩ := stepCommand_progress h s
+    cases hs : stepCommand h s with
+    | cont s' =>
+      obtain ⟨x, y⟩ := a s' hs
+      exact ih s' (y ht) (by omega)
+    | stop s' e =>
+      simp only []
+      intro he
+      subst he
+      exact ht (c s' hs)
+
+/-- the fuel bound of the model's loop is adequate for every stream, waiting or ended: more fuel
+    never changes the result (so `waiting` at fuel 0 is never an artefact of the model) -/
+theorem loop_fuel (h : Handlers) : ∀ (fuel : Nat) (s : Sess), s.inp.items.length < fuel →
+    loop h (fuel + 1) s = loop h fuel s := by
+  intro fuel
+  induction fuel with
+  | zero => intro s hl; omega
+  | succ n ih =>
+    intro s hl
+    rw [loop, loop]
+    obtain ⟨a, _⟩ := stepCommand_progress h s
+    cases hs : stepCommand h s with
+    | stop s' e => rfl
+    | cont s' =>
+      simp only []
+      exact ih s' (by have := (a s' hs).1; omega)
+
+theorem runSession_ends (h : Handlers) (s : Sess) (ht : s.inp.tail ≠ .wait) : (runSession h s).2 ≠ .waiting := by
+  unfold runSession
+  split
+  · simp
+  · rename_i s1 heq
+    have := send_eq_inp _ _ _ _ heq
+    exact loop_ends h _ s1 (by rw [this]; exact ht) (by omega)
+
+theorem authPhase_ends (cfg : Config) (h : Handlers) (s : Sess) (db user : Bytes) (ht : s.inp.tail ≠ .wait) :
+    (authPhase cfg h s db user).2 ≠ some .waiting ∧
+    ((authPhase cfg h s db user).2 = none → (authPhase cfg h s db user).1.inp.tail ≠ .wait) := by
+  unfold authPhase
+  split
+  · split
+    · rename_i s1 heq; exact ⟨by simp, fun _ => by rw [send_eq_inp _ _ _ _ heq]; exact ht⟩
+    · simp
+  · split
+    · simp
+    · rename_i s1 heq
+      have h1 := send_eq_inp _ _ _ _ heq
+      have hn := next_spec s1.inp
+      rcases hnx : s1.inp.next with ⟨rd, i⟩
+      rw [hnx] at hn
+      cases hn with
+      | blocked hw => rw [h1] at hw; exact absurd hw ht
+      | rerr _ => simp
+      | item it i a b c =>
+        cases it with
+        | big t sz f => simp
+        | msg t body =>
+          simp only []
+          split
+          · simp
+          · split
+            · simp
+            · split
+              · simp
+              · simp
+              · split
+                · rename_i s2 heq2
+                  refine ⟨by simp, fun _ => ?_⟩
+                  rw [send_eq_inp _ _ _ _ heq2]
+                  simp only [Sess.log, Sess.setMsg]
+                  rw [b, h1]; exact ht
+                · simp
+
+theorem sessionStart_tail (s0 : Sess) (rest : Bytes) (ht : s0.inp.tail ≠ .wait) : (sessionStart s0 rest).inp.tail ≠ .wait := by
+  unfold sessionStart
+  cases h : s0.inp.tail with
+  | wait => exact absurd h ht
+  | rerr => simp
+  | eof m => simp
+
+theorem sendParams_inp : ∀ (ps : List (Bytes × Bytes)) (s : Sess), (sendParams ps s).1.inp = s.inp := by
+  intro ps
+  induction ps with
+  | nil => intro s; rfl
+  | cons kv r ih =>
+    intro s
+    obtain ⟨k, v⟩ := kv
+    simp only [sendParams]
+    split
+    · rename_i s1 heq; exact send_eq_inp _ _ _ _ heq
+    · rename_i s1 heq; rw [ih s1]; exact send_eq_inp _ _ _ _ heq
+
+theorem runMiddlewares_inp : ∀ (ms : List Bool) (i : Nat) (s : Sess), (runMiddlewares ms i s).1.inp = s.inp := by
+  intro ms
+  induction ms with
+  | nil => intro i s; rfl
+  | cons ok r ih =>
+    intro i s
+    simp only [runMiddlewares]
+    split
+    · rw [ih]; rfl
+    · rfl
+
+theorem serveAfterVersion_ends (cfg : Config) (h : Handlers) (s0 : Sess) (body rest : Bytes) (st : Bool) (ssl : Option UInt8)
+    (ht : s0.inp.tail ≠ .wait) : (serveAfterVersion cfg h s0 body rest st ssl).ending ≠ .waiting := by
+  unfold serveAfterVersion
+  dsimp only
+  split
+  · simp [finish]
+  · rename_i cp _
+    have ha := authPhase_ends cfg h (sessionStart s0 rest) ((lookup (ascii "database") cp).getD [])
+      ((lookup (ascii "user") cp).getD []) (sessionStart_tail s0 rest ht)
+    split
+    · rename_i s e heq
+      rw [heq] at ha
+      simp only [finish]
+      intro hc
+      exact ha.1 (by simp [hc])
+    · rename_i s heq
+      rw [heq] at ha
+      have hs := ha.2 rfl
+      simp only at hs
+      have hp := sendParams_inp (serverParams cfg ((lookup (ascii "user") cp).getD [])) s
+      split
+      · simp [finish]
+      · rename_i s1 heq1
+        rw [heq1] at hp
+        simp only at hp
+        have hm := runMiddlewares_inp h.mws 0 s1
+        split
+        · simp [finish]
+        · rename_i s2 heq2
+          rw [heq2] at hm
+          simp only at hm
+          have := runSession_ends h s2 (by rw [hm, hp]; exact hs)
+          rcases hr : runSession h s2 with ⟨s3, e⟩
+          rw [hr] at this
+          simpa [finish] using this
+
+theorem writeRaw_tail (s s1 : Sess) (ok : Bool) (h : writeRaw s = (s1, ok)) : s1.inp.tail = s.inp.tail := by
+  unfold writeRaw at h
+  split at h <;> (cases h; rfl)
+
+/-- **C04 (no wedge).** Once the client's input has ended — the transport fails reads (`rerr`) or
+    the client has closed its side (`eof`), at ANY byte position, in any phase — serving the
+    connection comes to an end: it is never left waiting. With `C04_no_crash`: it is closed. -/
+theorem C04_ends (cfg : Config) (h : Handlers) (inp tin : Bytes) (ht : cfg.tail ≠ .wait) :
+    (serve cfg h inp tin).ending = .closed := by
+  have h1 := C04_no_crash cfg h inp tin
+  have h2 : (serve cfg h inp tin).ending ≠ .waiting := by
+    have he : endOf cfg.tail ≠ .waiting := by
+      cases hc : cfg.tail with
+      | wait => exact absurd hc ht
+      | rerr => simp [endOf]
+      | eof m => simp [endOf]
+    unfold serve
+    dsimp only
+    repeat' split
+    all_goals first
+      | exact serveAfterVersion_ends _ _ _ _ _ _ _ ht
+      | (simp only [finish]; first | exact he | simp)
+      | (apply serveAfterVersion_ends; rw [writeRaw_tail _ _ _ (by assumption)]; exact ht)
+  cases hc : (serve cfg h inp tin).ending with
+  | closed => rfl
+  | waiting => exact absurd hc h2
+  | crashed => exact absurd hc h1
+
+/-- non-vacuity: a client that sends a startup packet, half a Query message and then closes its side -/
+example :
+    (serve { tail := .eof true } { parse := fun _ => .ok [], validate := fun _ _ _ => .accept, mws := [], terminate := none }
+      (be32 9 ++ be32 196608 ++ [0] ++ [81, 0, 0, 0, 9, 65])).ending = .closed := by decide
 
 end Pw.Props.C04
